@@ -83,6 +83,23 @@ impl PathBuf {
     #[verifier::external_body]
     pub fn join(&self, name: String) -> (r: PathBuf) ensures r == self.joined(name@) { unimplemented!() }
 }
+/// std::path::Path (only ever behind a reference): the borrowed form of a PathBuf
+#[verifier::external_body]
+pub struct Path { p: u8 }
+impl Path {
+    pub uninterp spec fn buf(&self) -> PathBuf;
+    #[verifier::external_body]
+    pub fn to_path_buf(&self) -> (r: PathBuf) ensures r == self.buf() { unimplemented!() }
+}
+impl std::ops::Deref for PathBuf {
+    type Target = Path;
+    #[verifier::external_body]
+    fn deref(&self) -> (r: &Path) ensures r.buf() == *self { unimplemented!() }
+}
+/// what File::open accepts (std: AsRef<Path>)
+pub trait PathLike { spec fn as_buf(&self) -> PathBuf; }
+impl PathLike for PathBuf { open spec fn as_buf(&self) -> PathBuf { *self } }
+impl PathLike for Path { open spec fn as_buf(&self) -> PathBuf { self.buf() } }
 /// the content of the file at a path, as the running process finds it (the WORLD; not changed by reading)
 pub uninterp spec fn fs_content(p: PathBuf) -> Seq<u8>;
 pub uninterp spec fn render1(fmt: Seq<char>, a: u64) -> Seq<char>;
@@ -94,8 +111,8 @@ pub struct File { pub content: Ghost<Seq<u8>> }
 impl File {
     /// File::open (assumed): the file's bytes as the world has them; fails only for environmental reasons
     #[verifier::external_body]
-    pub fn open(p: &PathBuf) -> (r: Result<File, io::Error>)
-        ensures r matches Ok(f) ==> f.content@ == fs_content(*p), r matches Err(e) ==> e.env@
+    pub fn open<P: PathLike>(p: &P) -> (r: Result<File, io::Error>)
+        ensures r matches Ok(f) ==> f.content@ == fs_content(p.as_buf()), r matches Err(e) ==> e.env@
     { unimplemented!() }
 }
 /// OpenOptions::new().create(true).append(true).open(p) (assumed): the existing bytes, or none; writes go to the end
@@ -160,6 +177,72 @@ impl BufReader<File> {
                 && (!e.env@ ==> old(self).pos@ + old(buf).cap() > old(self).all@.len()),
     { unimplemented!() }
 }
+/// a directory as the process finds it: its entries (the WORLD; not changed by reading)
+pub struct DirEntry { pub dir: Ghost<PathBuf>, pub name: Ghost<Seq<char>>, pub utf8: Ghost<bool> }
+pub struct OsString { pub text: Ghost<Seq<char>>, pub utf8: Ghost<bool> }
+impl OsString {
+    #[verifier::external_body]
+    pub fn to_str(&self) -> (r: Option<&str>)
+        ensures r is Some <==> self.utf8@, r matches Some(t) ==> t@ == self.text@
+    { unimplemented!() }
+}
+impl DirEntry {
+    #[verifier::external_body]
+    pub fn file_name(&self) -> (r: OsString) ensures r.text@ == self.name@, r.utf8@ == self.utf8@ { unimplemented!() }
+    #[verifier::external_body]
+    pub fn path(&self) -> (r: PathBuf) ensures r == self.dir@.joined(self.name@) { unimplemented!() }
+}
+pub uninterp spec fn dir_listing(p: PathBuf) -> Seq<DirEntry>;
+pub struct ReadDir { pub entries: Ghost<Seq<DirEntry>> }
+impl ReadDir {
+    /// `.flatten()` on the iterator of io::Result<DirEntry> (assumed): the entries that could be read -- all of them
+    #[verifier::external_body]
+    pub fn flatten(self) -> (r: Vec<DirEntry>) ensures r@ == self.entries@ { unimplemented!() }
+}
+/// std::fs::read_dir (assumed): the listing; fails only when there is no such directory (then nothing is listed)
+#[verifier::external_body]
+pub fn fs_read_dir(p: &Path) -> (r: Result<ReadDir, io::Error>)
+    ensures
+        r matches Ok(d) ==> d.entries@ == dir_listing(p.buf()),
+        r is Err ==> dir_listing(p.buf()).len() == 0,
+        forall|i: int| 0 <= i < dir_listing(p.buf()).len() ==> (#[trigger] dir_listing(p.buf())[i]).dir@ == p.buf(),
+{ unimplemented!() }
+/// std::fs::create_dir_all (assumed): does not change what an existing directory lists
+#[verifier::external_body]
+pub fn fs_create_dir_all(p: &PathBuf) -> (r: Result<(), io::Error>)
+    ensures r matches Err(e) ==> e.env@
+{ unimplemented!() }
+
+/// str::starts_with / ends_with / strip_prefix / strip_suffix with a &str pattern (std; assumed; the Pattern trait is
+/// outside Verus, hence wrappers whose bodies are the same calls)
+#[verifier::external_body]
+pub fn str_starts_with(s: &str, p: &str) -> (r: bool)
+    ensures r == (p@.len() <= s@.len() && s@.take(p@.len() as int) == p@)
+{ s.starts_with(p) }
+#[verifier::external_body]
+pub fn str_ends_with(s: &str, p: &str) -> (r: bool)
+    ensures r == (p@.len() <= s@.len() && s@.skip(s@.len() - p@.len()) == p@)
+{ s.ends_with(p) }
+#[verifier::external_body]
+pub fn str_strip_prefix<'a>(s: &'a str, p: &str) -> (r: Option<&'a str>)
+    ensures
+        r is Some <==> (p@.len() <= s@.len() && s@.take(p@.len() as int) == p@),
+        r matches Some(t) ==> t@ == s@.skip(p@.len() as int),
+{ s.strip_prefix(p) }
+#[verifier::external_body]
+pub fn str_strip_suffix<'a>(s: &'a str, p: &str) -> (r: Option<&'a str>)
+    ensures
+        r is Some <==> (p@.len() <= s@.len() && s@.skip(s@.len() - p@.len()) == p@),
+        r matches Some(t) ==> t@ == s@.take(s@.len() - p@.len()),
+{ s.strip_suffix(p) }
+/// u64::from_str_radix (std; assumed): a function of the text and the radix
+pub uninterp spec fn radix_value(t: Seq<char>, radix: u32) -> Option<u64>;
+#[verifier::external_type_specification]
+#[verifier::external_body]
+pub struct ExParseIntError(std::num::ParseIntError);
+pub assume_specification[ u64::from_str_radix ](src: &str, radix: u32) -> (r: Result<u64, std::num::ParseIntError>)
+    ensures r matches Ok(v) ==> radix_value(src@, radix) == Some(v), r is Err ==> radix_value(src@, radix) is None;
+
 pub mod chrono {
     use super::*;
     pub struct DateTime { pub t: i64 }
@@ -482,6 +565,66 @@ pub proof fn lemma_delivered_push(seen0: Seq<WalEntry>, all: Seq<WalEntry>, w: S
     assert((seen0 + w).push(e) =~= seen0 + w.push(e));
 }
 
+/// the sequence number a segment's file name prints (None for any other name): `wal-` + hexadecimal + `.log`, read the
+/// way find_latest_sequence reads it
+pub open spec fn name_seq(n: Seq<char>) -> Option<u64> {
+    let pre = "wal-"@; let suf = ".log"@;
+    if pre.len() <= n.len() && n.take(pre.len() as int) == pre && suf.len() <= n.len() && n.skip(n.len() - suf.len()) == suf {
+        let rest = n.skip(pre.len() as int);
+        if suf.len() <= rest.len() && rest.skip(rest.len() - suf.len()) == suf { radix_value(rest.take(rest.len() - suf.len()), 16) } else { None }
+    } else { None }
+}
+pub open spec fn strip_suffix_post(s: Seq<char>, p: Seq<char>, o: Option<&str>) -> bool {
+    &&& o is Some <==> (p.len() <= s.len() && s.skip(s.len() - p.len()) == p)
+    &&& o matches Some(t) ==> t@ == s.take(s.len() - p.len())
+}
+pub open spec fn seg_seq(e: DirEntry) -> Option<u64> { if e.utf8@ { name_seq(e.name@) } else { None } }
+pub open spec fn seg_file(e: DirEntry) -> PathBuf { e.dir@.joined(e.name@) }
+/// the records replay finds in a segment
+pub open spec fn seg_records(e: DirEntry) -> Seq<WalRecord> { parse(fs_content(seg_file(e))).0 }
+pub open spec fn below(rs: Seq<WalRecord>, m: u64) -> bool { forall|k: int| 0 <= k < rs.len() ==> (#[trigger] rs[k]).sequence < m }
+pub open spec fn at_most(rs: Seq<WalRecord>, m: u64) -> bool { forall|k: int| 0 <= k < rs.len() ==> (#[trigger] rs[k]).sequence <= m }
+/// the directory invariant the numbering relies on (ASSUMED, A-WAL-DIR: established by earlier sessions of this code):
+/// no two segments print the same number, and every record of a segment is numbered below the name of any later one
+pub open spec fn dir_ordered(es: Seq<DirEntry>) -> bool {
+    forall|a: int, b: int| 0 <= a < es.len() && 0 <= b < es.len() && a != b && seg_seq(#[trigger] es[a]) is Some && seg_seq(#[trigger] es[b]) is Some ==>
+        seg_seq(es[a]) != seg_seq(es[b]) && (seg_seq(es[a])->0 < seg_seq(es[b])->0 ==> below(seg_records(es[a]), seg_seq(es[b])->0))
+}
+/// C15, numbering: nothing replay can find in the directory carries a sequence number above m
+pub open spec fn no_record_above(es: Seq<DirEntry>, m: u64) -> bool {
+    forall|i: int| 0 <= i < es.len() && seg_seq(#[trigger] es[i]) is Some ==> at_most(seg_records(es[i]), m)
+}
+pub open spec fn max_seq(rs: Seq<WalRecord>) -> u64
+    decreases rs.len()
+{ if rs.len() == 0 { 0 } else { let m = max_seq(rs.drop_last()); if rs.last().sequence > m { rs.last().sequence } else { m } } }
+pub proof fn lemma_max_seq(rs: Seq<WalRecord>)
+    ensures at_most(rs, max_seq(rs))
+    decreases rs.len()
+{
+    if rs.len() > 0 {
+        lemma_max_seq(rs.drop_last());
+        assert forall|k: int| 0 <= k < rs.len() implies (#[trigger] rs[k]).sequence <= max_seq(rs) by {
+            if k < rs.len() - 1 { assert(rs.drop_last()[k] == rs[k]); }
+        }
+    }
+}
+/// the segment with the largest name: every name is at most s, the records of segment w are at most m >= s
+pub proof fn lemma_newest_covers(es: Seq<DirEntry>, w: int, m: u64)
+    requires
+        dir_ordered(es), 0 <= w < es.len(), seg_seq(es[w]) is Some, seg_seq(es[w])->0 <= m,
+        forall|j: int| 0 <= j < es.len() ==> (seg_seq(#[trigger] es[j]) matches Some(sj) ==> sj <= seg_seq(es[w])->0),
+        max_seq(seg_records(es[w])) <= m,
+    ensures no_record_above(es, m)
+{
+    lemma_max_seq(seg_records(es[w]));
+    assert forall|i: int| 0 <= i < es.len() && seg_seq(#[trigger] es[i]) is Some implies at_most(seg_records(es[i]), m) by {
+        if i != w {
+            assert(seg_seq(es[i]) != seg_seq(es[w]));
+            assert(below(seg_records(es[i]), seg_seq(es[w])->0));
+        }
+    }
+}
+
 impl Wal {
     /// the segment files of this log in append order (ASSUMED of get_wal_files: zero-padded hexadecimal names sort
     /// like the numbers they print, and a later session opens a later-named file)
@@ -496,6 +639,89 @@ impl Wal {
     pub open spec fn tail_bytes(&self, s: u64) -> Seq<u8> {
         match self.current_file { Some(w) => w.bytes@, None => fs_content(self.seg_path(s)) }
     }
+
+//@fn Wal::new from=wal ret=r props=C15
+//@replace "path: impl AsRef<Path>" => "path: &Path" :: generic AsRef<Path> argument taken as the &Path it is converted to
+//@replace "path.as_ref().to_path_buf()" => "path.to_path_buf()" :: same
+//@replace "std::fs::create_dir_all(" => "fs_create_dir_all(" :: std::fs function: stand-in (the std path cannot be shadowed inside the unit)
+//@requires
+        dir_ordered(dir_listing(path.buf())),
+//@ensures
+        r matches Ok(w) ==> no_record_above(dir_listing(path.buf()), w.sequence),      //#no_record_on_disk_is_numbered_above_the_counter
+        r matches Ok(w) ==> w.current_file is None && w.path == path.buf(),      //#starts_closed_at_the_given_path
+//@atstart
+        broadcast use axiom_question_mark;
+//@end
+
+//@fn Wal::find_latest_sequence from=wal ret=r props=C15
+//@replace "std::fs::read_dir(" => "fs_read_dir(" :: std::fs function: stand-in (the std path cannot be shadowed inside the unit)
+//@replace "filename.starts_with(\"wal-\")" => "str_starts_with(filename, \"wal-\")" :: str method generic over Pattern: routed through a wrapper whose body is the same call
+//@replace "filename.ends_with(\".log\")" => "str_ends_with(filename, \".log\")" :: same
+//@replace "filename.strip_prefix(\"wal-\")" => "str_strip_prefix(filename, \"wal-\")" :: same
+//@replace "s.strip_suffix(\".log\")" => "str_strip_suffix(s, \".log\")" :: same
+//@requires
+        dir_ordered(dir_listing(path.buf())),
+//@ensures
+        r matches Ok(m) ==> no_record_above(dir_listing(path.buf()), m),      //#no_record_on_disk_is_numbered_above_the_result
+        r matches Err(e) ==> (e matches WalError::Io(x) && x.env@),      //#fails_only_for_the_environment
+//@closure and_then#1 (s: &str) -> (o: Option<&str>) ensures strip_suffix_post(s@, ".log"@, o)
+//@atstart
+        broadcast use axiom_question_mark;
+        let ghost es = dir_listing(path.buf());
+        let ghost mut w: int = -1;
+        proof { reveal_strlit("wal-"); reveal_strlit(".log"); }
+//@loop 1 iter=it
+            invariant
+                es == dir_listing(path.buf()), it.seq() == es, dir_ordered(es),
+                forall|j: int| 0 <= j < es.len() ==> (#[trigger] es[j]).dir@ == path.buf(),
+                forall|j: int| 0 <= j < it.index() ==> (seg_seq(#[trigger] es[j]) matches Some(sj) ==> sj <= max_sequence),      //#at_least_every_segment_name_seen
+                newest is None ==> forall|j: int| 0 <= j < it.index() ==> seg_seq(#[trigger] es[j]) is None,      //#no_segment_seen_yet
+                newest matches Some(np) ==> 0 <= w < it.index() && seg_seq(es[w]) == Some(max_sequence) && np == seg_file(es[w]),      //#newest_is_the_segment_with_the_largest_name
+//@before "if let Some(filename) = entry.file_name().to_str()"
+            proof { reveal_strlit("wal-"); reveal_strlit(".log"); assert(entry == es[it.index() as int]); }
+//@after "newest = Some(entry.path())"
+                                proof { w = it.index() as int; }
+//@before "Ok(max_sequence)"
+        proof {
+            if newest is Some {
+                lemma_newest_covers(es, w, max_sequence);
+            } else {
+                assert(no_record_above(es, max_sequence));
+            }
+        }
+//@end
+
+//@fn Wal::last_sequence_in_file from=wal ret=r props=C15 optional
+//@replace "u32::from_le_bytes(len_bytes)" => "u32_from_le_bytes(len_bytes)" :: std function whose array length is an anonymous constant: routed through a wrapper whose body is the same call
+//@ensures
+        r matches Ok(l) ==> l == max_seq(parse(fs_content(file_path.buf())).0),      //#the_largest_sequence_replay_would_see
+        r matches Err(e) ==> (e matches WalError::Io(x) && x.env@),      //#fails_only_for_the_environment
+//@atstart
+        broadcast use axiom_question_mark;
+//@before "let mut buf = Vec::new()"
+        let ghost mut done: Seq<WalRecord> = Seq::empty();
+        proof {
+            assert(reader.all@.subrange(0, reader.all@.len() as int) =~= reader.all@);
+            assert(Seq::<WalRecord>::empty() + parse(reader.all@).0 =~= parse(reader.all@).0);
+        }
+//@loop 1
+            invariant_except_break
+                parse_from(reader.all@, done, reader.pos@),      //#records_read_so_far
+            invariant
+                reader.wf(), reader.all@ == fs_content(file_path.buf()),
+                last == max_seq(done),      //#largest_so_far
+            ensures
+                parse(reader.all@).0 == done,      //#scan_stops_where_replay_stops
+            decreases reader.all@.len() - reader.pos@
+//@before "match reader.read_exact(&mut len_bytes)"
+            broadcast use axiom_question_mark;
+            proof { lemma_record_fate(reader.all@, done, reader.pos@); }
+//@before "if record.sequence > last"
+            proof {
+                assert(done.push(record).drop_last() =~= done);
+                done = done.push(record);
+            }
+//@end
 
 //@fn Wal::current_sequence from=wal ret=r props=C15
 //@ensures
